@@ -108,6 +108,30 @@ func checkForwarding(r *Reporter, p *Prog, rule string, o fwdOpts) {
 			return true
 		})
 		sig := info.Defs[fd.Name].Type().(*types.Signature)
+		if !direct && sig.Results().Len() == 1 {
+			// the call's result held in a local until the return (`v := inner.Op(); unlock(); return v`):
+			// every return returns exactly the value of the delegated call
+			f := newFuncCFG(p, info, fd.Body, key)
+			nRet, all := 0, true
+			for _, rpt := range f.Find(func(n ast.Node) bool { _, ok := n.(*ast.ReturnStmt); return ok }) {
+				rs := f.nodeAt(rpt).(*ast.ReturnStmt)
+				nRet++
+				if len(rs.Results) != 1 {
+					all = false
+					continue
+				}
+				os := f.Origins(rs.Results[0], rpt)
+				if len(os) == 0 {
+					all = false
+				}
+				for _, o := range os {
+					if ast.Unparen(o.E) != ast.Expr(calls[0]) {
+						all = false
+					}
+				}
+			}
+			direct = nRet > 0 && all
+		}
 		if !direct && sig.Results().Len() > 0 {
 			f := newFuncCFG(p, info, fd.Body, key)
 			succ, fail := f.ErrEdges(calls[0])
